@@ -132,6 +132,11 @@ def plan(tier):
                     out.append(("map", g, v, "core", 3))
     for g in ("sm", "o2j"):
         out.append(("set", g, "plain", "set", 2 if tier == "quick" else 3))
+    # size: a stack of more than 256 rows (thorough: more than 1024)
+    for g in GAMES:
+        out.append(("map", g, "large", "core", 1))
+        if tier == "thorough":
+            out.append(("map", g, "large1100", "full", 1))
     return out
 
 
